@@ -119,12 +119,96 @@ def gen_env(seed):
     z = seeds.derive(seed, 'env-tz') % 16
     if z < len(TIME_ZONES):
         env['tz'] = TIME_ZONES[z]
+    if seeds.derive(seed, 'env-opt') % 16 == 0:
+        env['optimize'] = 1          # python -O: assert statements are not executed
     return env
 
 
-def exec_in_child(execute, scenario, timeout=CHILD_TIMEOUT_S):
+# ------------------------------------------------------------------------------------------------
+# The simulated machine may run its interpreter with assertions stripped (python -O): scenario['env']['optimize'].  That cannot be
+# switched on in a forked child, so each worker keeps one ``python -O`` server process; the server forks one child per scenario
+# exactly as exec_in_child does here, only inside an interpreter that compiled everything without assert statements.
+_OPT_SERVER = None
+
+
+def opt_server_main(check_module):
+    """Entry point of the ``python -O`` server: one JSON scenario per line on stdin, one JSON result per line on stdout."""
+    import importlib
+    assert False, 'the server must run with -O'          # stripped when started as intended
+    from . import build
+    out = os.fdopen(os.dup(1), 'w')
+    os.dup2(2, 1)                                        # nothing else may write to the protocol pipe
+    build.ensure_build()
+    check = importlib.import_module(check_module)
+    check.setup()
+    import logging
+    import warnings
+    logging.disable(logging.CRITICAL)
+    warnings.simplefilter('ignore')
+    out.write(json.dumps({'ready': sys.flags.optimize}) + '\n')
+    out.flush()
+    for line in sys.stdin:
+        scenario = json.loads(line)
+        res = exec_in_child(check.execute, scenario, in_opt_server=True)
+        out.write(json.dumps(res, default=seeds._default) + '\n')
+        out.flush()
+
+
+def _opt_exec(execute, scenario, timeout):
+    global _OPT_SERVER
+    import subprocess
+    mod = execute.__module__
+    for attempt in (0, 1):
+        if _OPT_SERVER is None or _OPT_SERVER[0] != mod or _OPT_SERVER[1].poll() is not None:
+            env = dict(os.environ, PYTHONHASHSEED='0', PYTHONDONTWRITEBYTECODE='1')
+            proc = subprocess.Popen([sys.executable, '-O', '-X', 'faulthandler', '-c',
+                                     'import sys; sys.path.insert(0, %r); from sim import runner; runner.opt_server_main(%r)' % (VERIF, mod)],
+                                    stdin=subprocess.PIPE, stdout=subprocess.PIPE, stderr=subprocess.DEVNULL, env=env, cwd=VERIF)
+            ready = _read_line(proc, 300.0)
+            if ready is None or json.loads(ready).get('ready') != 1:
+                proc.kill()
+                return {'harness_error': f'python -O server did not start: {ready!r}'}
+            _OPT_SERVER = (mod, proc)
+        proc = _OPT_SERVER[1]
+        try:
+            proc.stdin.write((json.dumps(scenario, default=seeds._default) + '\n').encode('utf8'))
+            proc.stdin.flush()
+        except (BrokenPipeError, OSError):
+            _OPT_SERVER = None
+            continue
+        line = _read_line(proc, timeout + 30.0)
+        if line is None:
+            proc.kill()
+            _OPT_SERVER = None
+            return {'harness_error': 'python -O server gave no answer'}
+        return json.loads(line)
+    return {'harness_error': 'python -O server cannot be reached'}
+
+
+def _read_line(proc, timeout):
+    fd = proc.stdout.fileno()
+    buf = getattr(proc, '_verif_buf', b'')
+    deadline = time.monotonic() + timeout
+    while b'\n' not in buf:
+        left = deadline - time.monotonic()
+        if left <= 0:
+            return None
+        ready, _, _ = select.select([fd], [], [], min(left, 5.0))
+        if ready:
+            by = os.read(fd, 1 << 16)
+            if not by:
+                return None
+            buf += by
+    line, _, rest = buf.partition(b'\n')
+    proc._verif_buf = rest
+    return line.decode('utf8')
+
+
+def exec_in_child(execute, scenario, timeout=CHILD_TIMEOUT_S, in_opt_server=False):
     """Run ``execute(scenario)`` in a forked child (DESIGN 2.10) and return its result dict.
     Returns {'harness_error': text} if the harness itself failed or the wall-clock net fired."""
+    if not in_opt_server and not sys.flags.optimize and isinstance(scenario, dict) and (scenario.get('env') or {}).get('optimize'):
+        return _opt_exec(execute, scenario, timeout)
     r, w = os.pipe()
     pid = os.fork()
     if pid == 0:
@@ -212,6 +296,7 @@ def _run_chunk(args):
         res['size'] = len(json.dumps(scenario, default=seeds._default))
         res['env_log'] = scenario.get('env', {}).get('log', 'off')
         res['env_tz'] = scenario.get('env', {}).get('tz', '')
+        res['env_opt'] = scenario.get('env', {}).get('optimize', 0)
         res['wall'] = time.perf_counter() - t0
         out.append(res)
     return out
@@ -415,6 +500,8 @@ def main(check, argv=None):
             n_debug += 1
         if r.get('env_tz'):
             tz_runs[r['env_tz']] = tz_runs.get(r['env_tz'], 0) + 1
+        if r.get('env_opt'):
+            tz_runs['__opt__'] = tz_runs.get('__opt__', 0) + 1
         _merge(probes, r['probes'])
         _merge(ops, r['ops'])
         _merge(faults, r['faults'])
@@ -530,7 +617,8 @@ def main(check, argv=None):
                 'faulted_runs': faulted_runs,
                 'harness_errors': n_harness,
                 'runs_with_debug_logging_enabled': n_debug,
-                'runs_per_simulated_time_zone': dict(sorted(tz_runs.items())),
+                'runs_per_simulated_time_zone': dict(sorted((k, v) for k, v in tz_runs.items() if k != '__opt__')),
+                'runs_with_assertions_stripped_python_O': tz_runs.get('__opt__', 0),
                 'known_findings_seen': sorted(known_seen),
                 'real_components': check.REAL,
                 'stub_components': check.STUB,
